@@ -180,6 +180,14 @@ def end_of_iteration(ctx, rid, nx):
         ctx.undecided(rid, nx, "the tests that lead to `raise StopIteration` do not mention the byte count %r of the read this rule follows (it may have been copied into another variable); how the iteration ends is not decided" % SZ,
                       raises[0] if raises else nx.node)
         return SZ
+    n_reads = sum(1 for n_ in own_nodes(nx.node) if isinstance(n_, ast.Call) and isinstance(n_.func, ast.Attribute) and n_.func.attr in ("readinto", "read"))
+    n_next = sum(1 for n_ in own_nodes(nx.node) if isinstance(n_, ast.Call) and norm(n_.func).endswith("next_file"))
+    if not (ok and bool(whiles)) and (n_reads > 1 or n_next > 1):
+        # several reads / hand-overs in one body (the continuation across files written into the iterator itself): this rule
+        # follows one read and the hand-over behind it
+        ctx.undecided(rid, nx, "%s holds %d reads and %d hand-overs to the next file; which of them ends the iteration was not separated" % (nx.qualname, n_reads, n_next),
+                      raises[0] if raises else nx.node)
+        return SZ
     ctx.decide(rid, nx, ok and bool(whiles), "iteration ends only when a read returns nothing and there is no next file; otherwise it reads on",
                "the end of iteration is not tied to (empty read and no further file): files can be cut off or skipped", raises[0] if raises else nx.node)
     return SZ
@@ -488,9 +496,15 @@ def enumeration(ctx):
         if isinstance(sz, ast.Name):
             vals = [q for w, q in ctx.res.bindings(fn).get(sz.id, []) if w == "value"]
             sz = vals[0] if len(vals) == 1 else sz
-        ok = isinstance(sz, ast.Call) and C.is_ext_call(ctx, sz, fn, ("os.path.getsize",)) and norm(sz.args[0]) == p and len(lst.elts) == 1 and norm(lst.elts[0]) in ("str(%s)" % p, p)
+        size_ok = (isinstance(sz, ast.Call) and C.is_ext_call(ctx, sz, fn, ("os.path.getsize",)) and norm(sz.args[0]) == p) or \
+            norm(sz) in ("%s.stat().st_size" % p, "os.stat(%s).st_size" % p)        # what os.path.getsize returns, by definition
+        ok = size_ok and len(lst.elts) == 1 and norm(lst.elts[0]) in ("str(%s)" % p, p)
         rn = C.stmt_node(ctx, fn, r)
         guarded = any(C.test_expr(b) is not None and norm(C.test_expr(b)) in ("%s.is_file()" % p, "os.path.isfile(%s)" % p) and lab == "true" for b, lab in g.control_deps(rn))
+        if not size_ok and len(lst.elts) == 1 and norm(lst.elts[0]) in ("str(%s)" % p, p) and guarded and isinstance(sz, (ast.Call, ast.Attribute, ast.Name)) \
+                and any(isinstance(x, ast.Name) and x.id == p for x in ast.walk(sz)):
+            ctx.undecided("C01.2", fn, "the single-file case takes the size as `%s`, a way of asking for the size of %s this rule does not know" % (norm(sz), p), r)
+            continue
         ctx.decide("C01.2", fn, ok and guarded, "a regular file yields exactly itself with its getsize", "the single-file case returns %s" % norm(r.value), r)
     ctx.floor("return shapes of _filelist_total", 2, len(rets))
 
